@@ -28,14 +28,14 @@ TAG = "observations_tag"          # the ghost-tag leaf
 P_REPLAY_MAX = 100000             # replayed counterexamples use positions that fit int32 comfortably
 
 
-def spaces():
+def spaces(stateful=True):
     osp = Dict({"pos": Box(-1.0, 1.0, shape=(2,)), "tag": Discrete(7)})
     asp = Tuple((Discrete(3), Box(-1.0, 1.0, shape=(1,))))
-    return osp, asp, UFPolState(jnp.zeros(1))
+    return osp, asp, (UFPolState(jnp.zeros(1)) if stateful else None)
 
 
-def mkbuf(C, E=None):
-    osp, asp, st = spaces()
+def mkbuf(C, E=None, stateful=True):
+    osp, asp, st = spaces(stateful)
     if E is None:
         return ReplayBuffer(C, osp, asp, st)
     # the vectorised buffer exactly as AbstractOffPolicyAlgorithm.reset builds it: vmap of the constructor
@@ -49,12 +49,12 @@ def add_fn(rb, o, no, a, r, d, t, s, ns):
 ADD_ARGNAMES = ["buf", "o", "no", "a", "r", "d", "t", "s", "ns"]
 
 
-def trace_add(C):
-    osp, asp, st = spaces()
-    rb = mkbuf(C)
+def trace_add(C, stateful=True):
+    osp, asp, st = spaces(stateful)
+    rb = mkbuf(C, stateful=stateful)
     o, a = osp.canonical(), asp.canonical()
     return trace(add_fn, rb, o, o, a, jnp.array(0.0), jnp.array(False), jnp.array(False), st, st, argnames=ADD_ARGNAMES,
-                 label="ReplayBuffer.add")
+                 label="ReplayBuffer.add" + ("" if stateful else "[stateless policy]"))
 
 
 def row_name(leaf):
@@ -109,8 +109,9 @@ def same_value(got, exp):
 
 
 # ------------------------------------------------------------------------------------------------ add
-def sec_add(ck, C, validate):
-    tr = trace_add(C)
+def sec_add(ck, C, validate, stateful=True):
+    tr = trace_add(C, stateful)
+    sfx = "" if stateful else ",stateless"
     ck.encoded(tr)
     if validate:
         concrete.validate(ck, tr, n=2, seed=ck.seed)
@@ -183,14 +184,14 @@ def sec_add(ck, C, validate):
                 "invariant_failures": bad[:8]}
         return bool(bad), info
     small = [p <= P_REPLAY_MAX] + bounded_inputs(S, tr, ilim=P_REPLAY_MAX + 10)
-    ck.prove(f"add.inductive@C={C}", A, goal, replay=rp_add, margin_goal=implies(conj(small), goal))
-    ck.witness(f"witness.inv_after_wraparound@C={C}", A + [p > C])
-    ck.witness(f"witness.inv_partially_filled@C={C}", A + [p > 0, p < C] if C > 1 else A + [p == 0])
+    ck.prove(f"add.inductive@C={C}{sfx}", A, goal, replay=rp_add, margin_goal=implies(conj(small), goal))
+    ck.witness(f"witness.inv_after_wraparound@C={C}{sfx}", A + [p > C])
+    ck.witness(f"witness.inv_partially_filled@C={C}{sfx}", A + [p > 0, p < C] if C > 1 else A + [p == 0])
     if C > 1:
         # wrong references: the ring index computed as (p+1) mod C / the position not advanced
         wrong = [z3.If(j < zmin(p + 1, C), z3.If(j == (p + 1) % C, p, buf_in[TAG][j]), -1) for j in range(C)]
-        ck.control(f"control.add_row_lands_at_next_slot@C={C}", A, conj([eq_elem(T1[j], wrong[j]) for j in range(C)]))
-    ck.control(f"control.add_position_unchanged@C={C}", A, eq_elem(out["position"][()], p))
+        ck.control(f"control.add_row_lands_at_next_slot@C={C}{sfx}", A, conj([eq_elem(T1[j], wrong[j]) for j in range(C)]))
+    ck.control(f"control.add_position_unchanged@C={C}{sfx}", A, eq_elem(out["position"][()], p))
 
     # ---------- all fields of the new row are written at one common slot and nothing else changes (arbitrary state, no invariant needed)
     it2 = Interp()
@@ -228,9 +229,9 @@ def sec_add(ck, C, validate):
         return not ok_slots, info
     small2 = bounded_inputs(S2, tr)
     g2 = disj([same_slot(s) for s in range(C)])
-    ck.prove(f"add.fields_same_slot@C={C}", [p2 >= 0], g2, replay=rp_slot, margin_goal=implies(conj(small2), g2))
+    ck.prove(f"add.fields_same_slot@C={C}{sfx}", [p2 >= 0], g2, replay=rp_slot, margin_goal=implies(conj(small2), g2))
     if C > 1:
-        ck.control(f"control.add_always_slot0@C={C}", [p2 >= 0], same_slot(0))
+        ck.control(f"control.add_always_slot0@C={C}{sfx}", [p2 >= 0], same_slot(0))
 
 
 def sec_base(ck):
@@ -393,6 +394,8 @@ def main():
             sec_add(ck, C, validate=(C in (1, 3)))
         with ck.section(f"ring@C={C}"):
             sec_ring(ck, C)
+    with ck.section("add@C=3,stateless"):
+        sec_add(ck, 3, validate=False, stateful=False)        # policies without a state: the states / next_states fields are absent
     for i, (C, B) in enumerate(scal):
         with ck.section(f"sample@C={C},B={B}"):
             sec_sample(ck, C, None, B, validate=(i == 0), controls=(C, B) in ((3, 2), (4, 3)))
